@@ -46,7 +46,7 @@ Lemma qinv_step : forall s e s', qinv s -> step s e = Some s' -> qinv s'.
 Proof.
   intros s e s' [S N] HS. apply step_facts in HS. unfold facts in HS. destruct HS as [_ HS].
   unfold qinv.
-  destruct e as [t k | sr | t k | | m | t | to | c | t k | k r].
+  destruct e as [t k | sr | t k | | m | t | to | c | t k | k r | base dd].
   - destruct HS as [Hq _]. rewrite Hq. apply q_add_qinv; assumption.
   - destruct sr; try (destruct HS as [Hq _]; rewrite Hq; split; assumption).
     destruct HS as [_ [Hq _]]. rewrite Hq. split; constructor.
@@ -62,6 +62,7 @@ Proof.
     + apply (sorted_tail _ _ h). exact S.
     + simpl in N. inversion N; assumption.
   - destruct HS as [nb [t [_ [Hq _]]]]. rewrite Hq. split; assumption.
+  - destruct HS as [Hq _]. rewrite Hq. split; assumption.
 Qed.
 
 Lemma qinv_init : forall k m, qinv (init k m).
@@ -93,7 +94,7 @@ Proof.
   - reflexivity.
   - destruct (step s e) as [s1 |] eqn:E; [| discriminate].
     pose proof (step_facts _ _ _ E) as F. unfold facts in F. destruct F as [_ F].
-    destruct e as [t k | sr | t k | | m' | t | to | c | t k | k rr]; simpl.
+    destruct e as [t k | sr | t k | | m' | t | to | c | t k | k rr | base dd]; simpl.
     + destruct F as [_ [_ [_ [Hmap [Hn _]]]]].
       apply (IH s1 s'); [| exact HR]. split; [congruence |].
       intros nb H. destruct Hn as [Hn | Hn]; [apply Hnb; congruence | congruence].
@@ -134,6 +135,9 @@ Proof.
       apply (IH s1 s'); [| exact HR]. split; [congruence |].
       intros nb' H. apply Hnb. rewrite Hpc. simpl.
       rewrite Hpc' in H. destruct rr; simpl in H; exact H.
+    + destruct F as [_ [_ [_ [Hmap [Hn _]]]]].
+      apply (IH s1 s'); [| exact HR]. split; [congruence |].
+      intros nb H. destruct Hn as [Hn | Hn]; [apply Hnb; congruence | congruence].
 Qed.
 
 Lemma never_early_accepts : forall k m evs,
@@ -238,7 +242,7 @@ Proof.
     pose proof (qinv_step _ _ _ QI E) as QI1.
     pose proof (step_facts _ _ _ E) as F. unfold facts in F. destruct F as [_ F].
     destruct QI as [S N].
-    destruct e as [t k | sr | t k | | m' | t | to | c | t k | k rr]; simpl.
+    destruct e as [t k | sr | t k | | m' | t | to | c | t k | k rr | base dd]; simpl.
     + destruct F as [Hq [Hn' [Hc' _]]].
       apply (IH s1 s'); [exact QI1 | | exact HR]. split; [| split; congruence].
       simpl. rewrite Hq. apply Permutation_sym.
@@ -288,6 +292,8 @@ Proof.
       rewrite Hcur. rewrite Z.eqb_refl. simpl.
       apply (IH s1 s'); [exact QI1 | | exact HR]. split; [| split]; try congruence.
       rewrite Hpc'. destruct rr; reflexivity.
+    + destruct F as [Hq [Hn' [Hc' _]]].
+      apply (IH s1 s'); [exact QI1 | | exact HR]. split; [| split]; congruence.
 Qed.
 
 Lemma once_accepts : forall k m evs,
@@ -308,7 +314,7 @@ Proof.
   - reflexivity.
   - destruct (step s e) as [s1 |] eqn:E; [| discriminate].
     pose proof (step_facts _ _ _ E) as F. unfold facts in F. destruct F as [_ F].
-    destruct e as [t k | sr | t k | | m' | t | to | c | t k | k rr]; simpl.
+    destruct e as [t k | sr | t k | | m' | t | to | c | t k | k rr | base dd]; simpl.
     + destruct F as [_ [_ [_ [_ [_ [Hp _]]]]]].
       apply (IH s1 s'); [| exact HR]. intros t0 H0. apply Hpt. congruence.
     + assert (Hp : popt_of (c_pc s1) = popt_of (c_pc s)).
@@ -352,6 +358,8 @@ Proof.
            intros t0 H0. rewrite Hpc' in H0. simpl in H0. discriminate.
       * apply (IH s1 s'); [| exact HR]. intros t0 H0. rewrite Hpc' in H0. discriminate.
       * apply (IH s1 s'); [| exact HR]. intros t0 H0. rewrite Hpc' in H0. discriminate.
+    + destruct F as [_ [_ [_ [_ [_ [Hp _]]]]]].
+      apply (IH s1 s'); [| exact HR]. intros t0 H0. apply Hpt. congruence.
 Qed.
 
 Lemma resched_accepts : forall k m evs,
@@ -449,4 +457,83 @@ Proof.
   destruct F as [nb [t [Hpc [Hq [_ [_ [_ Hpc']]]]]]]. exists nb, t. repeat split; try assumption.
   destruct s as [kd q n p rn nt la m pe]. simpl in *.
   destruct pe, p, q; simpl in H; try discriminate H; step_cases H; reflexivity.
+Qed.
+
+(* ---- sched(d) from a non-clock thread: relative to the physical present -------------------------------------- *)
+Lemma sched_call_next_step : forall s base d s1 e s2,
+  step s (ESchedCall base d) = Some s1 -> step s1 e = Some s2 ->
+  exists t k, e = EAdd t k /\ t == secs2beats (c_map s) base + d /\
+    c_q s2 = q_add t k (c_q s) (c_n s) /\ main_time_frozen s = false.
+Proof.
+  intros s base d s1 e s2 H1 H2.
+  pose proof (step_facts _ _ _ H1) as F. destruct F as [_ F]. simpl in F.
+  destruct F as [Hq [Hn [_ [_ [_ [_ [Hlf [_ Hpe]]]]]]]].
+  assert (He : exists t k, e = EAdd t k /\ t == secs2beats (c_map s) base + d).
+  { destruct s1 as [kd q n p rn nt la m pe]. simpl in Hpe. subst pe.
+    destruct e; simpl in H2; try discriminate H2.
+    unfold step in H2. simpl in H2.
+    destruct (lock_free p && Qeq_bool t (secs2beats (c_map s) base + d)) eqn:E; [| discriminate].
+    apply andb_true_iff in E. destruct E as [_ E]. apply Qeq_bool_true in E.
+    eexists; eexists; split; [reflexivity | exact E]. }
+  destruct He as [t [k [He Ht]]]. subst e. exists t, k. repeat split; try assumption.
+  - pose proof (step_facts _ _ _ H2) as F2. destruct F2 as [_ F2]. simpl in F2.
+    destruct F2 as [Hq2 _]. rewrite Hq2. congruence.
+  - unfold main_time_frozen. destruct (c_pc s); simpl in *; try reflexivity; discriminate.
+Qed.
+
+(* the frozen-time flag is reset on every exit path of an awake (return, numeric return, exception) *)
+Lemma frozen_reset_on_every_exit : forall s k r s',
+  step s (EAwakeEnd k r) = Some s' -> main_time_frozen s = true /\ main_time_frozen s' = false.
+Proof.
+  intros s k r s' H. pose proof (step_facts _ _ _ H) as F. destruct F as [_ F]. simpl in F.
+  destruct F as [nb [t [Hpc [_ [_ [_ [_ Hpc']]]]]]]. unfold main_time_frozen. rewrite Hpc, Hpc'.
+  split; [reflexivity | destruct r; reflexivity].
+Qed.
+
+(* ... so it is set only while the clock thread is inside an awake call: never while the thread
+   waits, has exited, or is at a loop test *)
+Lemma frozen_only_in_awake : forall s, main_time_frozen s = true -> exists nb t k, c_pc s = PAwake nb t k.
+Proof.
+  intros s H. unfold main_time_frozen in H. destruct (c_pc s); simpl in H; try discriminate.
+  eexists; eexists; eexists; reflexivity.
+Qed.
+
+Lemma sched_base_gen : forall evs s s' m,
+  m = c_map s -> run s evs = Some s' -> mon_sched_base m evs = true.
+Proof.
+  induction evs as [| e r IH]; intros s s' m Hm HR; simpl in HR.
+  - reflexivity.
+  - destruct (step s e) as [s1 |] eqn:E; [| discriminate].
+    pose proof (step_facts _ _ _ E) as F. unfold facts in F. destruct F as [_ F].
+    destruct e as [t k | sr | t k | | m' | t | to | c | t k | k rr | base dd]; simpl.
+    + destruct F as [_ [_ [_ [Hmap _]]]]. apply (IH s1 s'); [congruence | exact HR].
+    + assert (Hmap : c_map s1 = c_map s).
+      { destruct sr; [destruct F as [_ [_ [_ [Hmap _]]]]; exact Hmap
+                     | destruct F as [_ [_ [_ [_ [Hmap _]]]]]; exact Hmap
+                     | destruct F as [_ [_ [_ [Hmap _]]]]; exact Hmap
+                     | destruct F as [_ [_ [_ [Hmap _]]]]; exact Hmap]. }
+      apply (IH s1 s'); [congruence | exact HR].
+    + destruct F as [h [q' [_ [_ [_ [_ [_ [_ [Hmap _]]]]]]]]]. apply (IH s1 s'); [congruence | exact HR].
+    + destruct F as [_ [_ [_ [Hmap _]]]]. apply (IH s1 s'); [congruence | exact HR].
+    + destruct F as [_ [_ [_ [Hmap _]]]]. apply (IH s1 s'); [congruence | exact HR].
+    + destruct F as [_ [_ [_ [_ [Hmap _]]]]]. apply (IH s1 s'); [congruence | exact HR].
+    + destruct F as [_ [_ [_ [Hmap _]]]]. apply (IH s1 s'); [congruence | exact HR].
+    + destruct F as [_ [_ [_ [Hmap _]]]]. apply (IH s1 s'); [congruence | exact HR].
+    + destruct F as [h [q' [nb [_ [_ [_ [_ [_ [_ [_ [_ Hmap]]]]]]]]]]]. apply (IH s1 s'); [congruence | exact HR].
+    + destruct F as [nb [t [_ [_ [_ [Hmap _]]]]]]. apply (IH s1 s'); [congruence | exact HR].
+    + destruct F as [_ [_ [_ [Hmap _]]]].
+      destruct r as [| e2 r2]; [reflexivity |].
+      simpl in HR. destruct (step s1 e2) as [s2 |] eqn:E2; [| discriminate].
+      destruct (sched_call_next_step s base dd s1 e2 s2 E E2) as [t [k [He [Ht _]]]]. subst e2.
+      apply andb_true_iff. split.
+      * apply Qeq_bool_iff. rewrite Hm. exact Ht.
+      * apply (IH s1 s'); [congruence | simpl; rewrite E2; exact HR].
+Qed.
+
+Lemma sched_base_accepts : forall k m evs,
+  accepts k m evs = true -> mon_sched_base m evs = true.
+Proof.
+  intros k m evs H. unfold accepts in H.
+  destruct (run (init k m) evs) as [s' |] eqn:E; [| discriminate].
+  apply (sched_base_gen evs (init k m) s'); [reflexivity | exact E].
 Qed.
